@@ -173,6 +173,8 @@ def parseLine (h : Hist) (line : String) : Hist :=
   | ["H", id, prop, cls, backend, swr, logger] =>
     { h with id := String.ofList (unhex id), prop := prop, cls := String.ofList (unhex cls), backend := backend, swrNs := toInt swr, logger := logger }
   | ["I", "REQ", n, atv, method, url, ok, scheme, host, path, query, opaq, fq, hdrs, cancel] =>
+    -- net/http: "For client requests, an empty string means GET" — the request the caller made IS a GET
+    let method := if (unhex method).isEmpty then "474554" else method
     let r : Req := { method := unhex method, scheme := unhex scheme, host := unhex host, path := unhex path,
                      query := unhex query, opaq := unhex opaq, header := parseHdrs hdrs, forceQuery := (fq == "1") }
     let ri : ReqIn := { n := toNat n, atNs := toInt atv, method := unhex method, url := unhex url,
